@@ -236,6 +236,19 @@ CLAIMED["C04"] = dict(
         "empty blobs are dropped), both replayed on the real code. Observation: the TTL product is computed in 32 bits (wraps from 137 years). " + TRUST,
    design="DESIGN.md §4 C04")
 
+CLAIMED["C01"] = dict(
+   text="Proof-level kernel of the per-operation step, both offset widths: Volume.doWriteRequest - a write that presents another cookie than the stored record (read at "
+        "the offset the map points at) fails and appends nothing and leaves the map alone; an unchanged file appends nothing; otherwise exactly one record is appended "
+        "and the map is updated with the needle's id and size unless it already points behind the new record, and a failed append never updates the map; "
+        "doDeleteRequest - a tombstone is appended and the map entry deleted exactly when the map holds a valid entry, whose size is returned; isFileUnchanged says "
+        "unchanged only for a stored record with equal cookie, checksum and data length; Store.WriteVolumeNeedle / DeleteVolumeNeedle reject a read-only volume (resp. one "
+        "that allows no deletes) before the volume is touched; readNeedleDataVersion2 accepts every body whose name or mime type fits, also when it ends exactly at the "
+        "end of the body.",
+   note="The data file and the needle map are abstract here (record layout: C02; map and counters: C05): the history property is the induction over these steps and is "
+        "not proved as such; the cookie checks of the HTTP read/delete handlers, the group-commit worker (the seeded change C01-m2 moves the read-only guard there and is "
+        "caught at the store), fsync and concurrency are not decided. One open known finding (an 'unchanged' write drops new metadata). " + TRUST,
+   design="DESIGN.md §4 C01")
+
 NA = {
  "C03":"crash-point property over byte-level truncation of two persistent files; no per-function contract within reach decides it (DESIGN §4 C03)",
  "C10":"needs inductive tree predicates and cardinality reasoning over interface-typed nodes in pointer maps with randomised picking (DESIGN §4 C10)",
